@@ -122,8 +122,8 @@ func caseC10Readers(t TB, prog *Program) {
 		return k
 	}
 	// database time runs 20x faster: the timeout is at most 500 ms = 25 ms real, a poll step 5 ms real.
-	// 6 s real = 2 minutes of database time without a flush while readers never pause is a violation.
-	deadline := time.Now().Add(6 * time.Second)
+	// 20 s real = 400 s of database time without a flush while readers never pause is a violation.
+	deadline := time.Now().Add(20 * time.Second) // (6 s would do; the rest is patience with a loaded machine)
 	for onDisk() < len(ids) && time.Now().Before(deadline) {
 		time.Sleep(2 * time.Millisecond)
 	}
@@ -133,7 +133,7 @@ func caseC10Readers(t TB, prog *Program) {
 			st.Add("inconclusive_readers_too_slow", 1) // the machine is too loaded to say anything
 			return
 		}
-		e.failf("%d readers kept the handle busy (%d calls completed); %d accepted writes (threshold %d, timeout %d ms) were pending for 6 s of real time = 120 s of database time, only %d of them reached the disk", nReaders, its, len(ids), e.cfg.Async.Threshold, e.cfg.Async.TimeoutMs, got)
+		e.failf("%d readers kept the handle busy (%d calls completed); %d accepted writes (threshold %d, timeout %d ms) were pending for 20 s of real time = 400 s of database time, only %d of them reached the disk", nReaders, its, len(ids), e.cfg.Async.Threshold, e.cfg.Async.TimeoutMs, got)
 	}
 	flags := map[string]int{"flush-while-readers-busy": 1, fmt.Sprintf("readers-%d", nReaders): 1}
 	if byTimeout {
@@ -241,12 +241,12 @@ func caseC10Switch(t TB, prog *Program) {
 		return k
 	}
 	// no further call; database time runs 20x faster (timeout <= 500 ms = 25 ms real)
-	deadline := time.Now().Add(6 * time.Second)
+	deadline := time.Now().Add(20 * time.Second) // (6 s would do; the rest is patience with a loaded machine)
 	for onDisk() < len(ids) && time.Now().Before(deadline) {
 		time.Sleep(2 * time.Millisecond)
 	}
 	if got := onDisk(); got < len(ids) {
-		e.failf("async writes were switched off and on again (%v; %d writes pending before, threshold now %d, timeout now %d ms); %d writes accepted afterwards waited 6 s of real time = 120 s of database time without any further call, %d of them reached the disk", toggles, pending, thr, lastTo, len(ids), got)
+		e.failf("async writes were switched off and on again (%v; %d writes pending before, threshold now %d, timeout now %d ms); %d writes accepted afterwards waited 20 s of real time = 400 s of database time without any further call, %d of them reached the disk", toggles, pending, thr, lastTo, len(ids), got)
 	}
 	flags := map[string]int{"async-off-on-back-to-back": 1, fmt.Sprintf("pending-before-%d", pending): 1}
 	st.Case(prog.Hash(), pending >= 300, flags, func() interface{} { return prog })
